@@ -85,6 +85,19 @@ example : (demo.kids.filter fun c => elemMatch c [demo.scope] (some "a") none).m
           (demo.kids.filter fun c => elemMatch c [demo.scope] (some "a") (some (some "urn:p"))).map Elem.id = [4] := by
   decide
 
+/-! ### set / unset name exactly the attribute given -/
+
+/-- **An unqualified name only ever names an unqualified attribute** (`type` is not `xsi:type`): when
+`set(name, v)` with an unprefixed name updates an existing attribute, that attribute has no prefix and
+exactly that name (D42, repaired in the repository). -/
+theorem set_unqualified_targets_unqualified (e : Elem) (ctx : Ctx) (q : String) (hq : (splitPrefix q).1 = none)
+    (k : Nat) (h : setAttrIdx e ctx q = some k) :
+    ∃ a, e.attrs[k]? = some a ∧ a.pfx = none ∧ a.name = (splitPrefix q).2 := by
+  simp only [setAttrIdx, hq] at h
+  obtain ⟨hk, hp, _⟩ := List.findIdx?_eq_some_iff_getElem.mp h
+  simp only [Bool.and_eq_true, Option.isNone_iff_eq_none, beq_iff_eq] at hp
+  exact ⟨e.attrs[k], by simp [hk], hp.1, hp.2⟩
+
 /-! ### lookups by path -/
 
 /-- `getChildren` returns exactly the matching children, in document order. -/
